@@ -73,3 +73,16 @@ Definition Sq := PSeq nat.
 Definition Tr := PTry nat.
 Definition Wi := PWith nat.
 Definition Ca := PCall nat.
+
+(* faults in the machinery (Model/C18Faults.v): one attempt, retry = 0; 101 = RollbackException *)
+Require Import PonyV.Model.C18Faults.
+Definition rb_kind : nat := 101.
+Definition eff_exc (cf : nat) (p : bool) (o : outcome nat) : option nat :=
+  match o with Raise e => Some e | Ok => if p then Some cf else None end.
+Definition run_fault_decor (cf : nat) (allowed retryable : pres nat) (rb_ok p : bool) (o : outcome nat) : obs :=
+  let '(x, r) := attempt_f nat cf rb_kind allowed retryable rb_ok (leaf nat 0 p o) st0 in
+  (visible (tr x), comm x,
+   match r with ADone o' => out_opt o' | ARetry => eff_exc cf p o end,      (* retry = 0: the loop is over, the attempt's exception is re-raised *)
+   depth x, length (pend x)).
+Definition run_fault_with (cf : nat) (allowed : pres nat) (rb_ok p : bool) (o : outcome nat) : obs :=
+  observe (with_f nat cf rb_kind allowed rb_ok (leaf nat 0 p o) st0).
